@@ -67,7 +67,7 @@ func c12r1(w *World, rr *RuleRun) {
 		if !c.IsInvoke() {
 			continue
 		}
-		rr.At(w, site, "raw Store.Put invoked only inside Wrapper.Put", within(site.Parent(), a.wPut), "in "+shortFuncName(site.Parent()))
+		rr.At(w, site, "raw Store.Put invoked only inside Wrapper.Put", w.withinUp(site.Parent(), a.wPut), "in "+shortFuncName(site.Parent()))
 		item := c.Args[0]
 		w.Require(rr, site, "Store.Put requires Check(i)=nil for the stored item", func(alt *Alt) (bool, string) {
 			it := w.FE.Resolve(alt, item)
@@ -79,12 +79,12 @@ func c12r1(w *World, rr *RuleRun) {
 	}
 	for _, site := range w.AllCallsTo(w.P.LibFuncs, a.sDel) {
 		if callInstrCommon(site).IsInvoke() {
-			rr.At(w, site, "raw Store.Del invoked only inside Wrapper.Get", within(site.Parent(), a.wGet), "in "+shortFuncName(site.Parent()))
+			rr.At(w, site, "raw Store.Del invoked only inside Wrapper.Get", w.withinUp(site.Parent(), a.wGet), "in "+shortFuncName(site.Parent()))
 		}
 	}
 	for _, site := range w.AllCallsTo(w.P.LibFuncs, a.sGet) {
 		if callInstrCommon(site).IsInvoke() {
-			ok := within(site.Parent(), a.wGet) || within(site.Parent(), a.wPut)
+			ok := w.withinUp(site.Parent(), a.wGet) || w.withinUp(site.Parent(), a.wPut)
 			rr.At(w, site, "raw Store.Get invoked only inside the Wrapper", ok, "in "+shortFuncName(site.Parent()))
 		}
 	}
